@@ -815,9 +815,6 @@ Proof.
   - intros Hf. destruct (H Hf) as [A B]. split; [exact A|]. intros u. rewrite HW. apply B.
 Qed.
 
-Lemma nil_law : whole [] /\ snd (counts []) = 0.
-Proof. split; [apply whole_nil|reflexivity]. Qed.
-
 Lemma skip_law wrap nxt p q d s : (forall p' q', plain (wrap p' q') p' q') -> plain nxt 0 0 -> plain s p q ->
   d_law s d (skip_drive wrap nxt p q d, []).
 Proof.
@@ -1962,3 +1959,76 @@ Proof.
   rewrite Hlog, Hsegs. cbn [new_parser st held sk sprem spad]. apply Q_init. exact Hpeer.
 Qed.
 Print Assumptions peer_never_deadlocks.
+
+
+(* ------------------------------------------------------------------------------------------ *)
+(* An instance: a GetValues query inside request 1's Stdin stream; the client keeps the rest of the stream back until
+   it has counted one management reply                                                          *)
+(* ------------------------------------------------------------------------------------------ *)
+Definition rcd_okb (r : rcd) : bool :=
+  (rt r <? 256) && (rid r <? 65536) && (len (rbody r) <? 65536) && (len (rpad r) <? 256) &&
+  bytes_okb (rbody r) && bytes_okb (rpad r).
+
+Lemma rcd_okb_ok rs : forallb rcd_okb rs = true -> Forall rcd_ok rs.
+Proof.
+  intros H. rewrite forallb_forall in H. rewrite Forall_forall. intros r Hr. specialize (H r Hr). unfold rcd_okb in H.
+  repeat (apply andb_true_iff in H; destruct H as [H ?]). unfold rcd_ok.
+  repeat split; try (apply N.ltb_lt; assumption); apply bytes_okb_ok; assumption.
+Qed.
+
+Definition ex2_rs1 : list rcd :=
+  [ mkRcd RT_BeginRequest 1 (begin_encode ROLE_Responder 0) [];
+    mkRcd RT_Params 1 [] [];
+    mkRcd 5 1 [97; 98; 99] [0; 0; 0; 0; 0];
+    mkRcd RT_GetValues 0 [14; 0; 70; 67; 71; 73; 95; 77; 65; 88; 95; 67; 79; 78; 78; 83] [] ].
+Definition ex2_rs2 : list rcd := [ mkRcd 5 1 [100; 101] []; mkRcd 5 1 [] [] ].
+(* segment 2 is released once the client has counted [gm] management replies *)
+Definition ex2_sg (gm : N) : list (N * N * list rcd) := [ (0, 0, ex2_rs1); (0, gm, ex2_rs2) ].
+Definition ex2_w (gm : N) : world := mkW [] [] (enc_segs (ex2_sg gm)) [] 0 1 0 false false [].
+(* the handler reads Stdin to the end, then writes "hi" to Stdout *)
+Definition ex2_scripts : list (list N) := [[2; 6; 6; 2; 104; 105]].
+
+(* the hypotheses of the theorem hold for it *)
+Example ex2_hyps :
+  64 < SIZE_LIMIT - 8 /\ scripts_ok true ex2_scripts /\ segs (ex2_w 1) = enc_segs (ex2_sg 1) /\ peer_segs 0 (ex2_sg 1) /\
+  wlog (ex2_w 1) = [] /\ no_fault (wscript (ex2_w 1)) /\ no_read_fault (rscript (ex2_w 1)) /\ stop_at (ex2_w 1) = 0 /\
+  stopped (ex2_w 1) = false /\ len (flat_map (fun s : N * N * bytes => snd s) (segs (ex2_w 1))) < SIZE_LIMIT.
+Proof.
+  split; [vm_compute; reflexivity|]. split.
+  { constructor; [|constructor]. intros role. apply SO_read_all. apply (SO_write true role _ 6 2 [104; 105]). apply SO_nil. }
+  split; [reflexivity|]. split.
+  { cbn [peer_segs ex2_sg]. split; [reflexivity|]. split; [lia|]. split; [apply rcd_okb_ok; vm_compute; reflexivity|].
+    split; [reflexivity|]. split; [vm_compute; discriminate|]. split; [apply rcd_okb_ok; vm_compute; reflexivity|exact I]. }
+  split; [reflexivity|]. split; [constructor|]. split; [constructor|]. split; [reflexivity|]. split; [reflexivity|].
+  vm_compute. reflexivity.
+Qed.
+
+(* the run: the handler receives "abcde" (so the second segment was delivered: its gate was met by the reply to the
+   query), the connection task returns; the log holds one EndRequest and one management reply *)
+Example ex2_returns :
+  let r := run_loop (fun b => b) 10 (nb (ex2_w 1) + 4) (new_parser 64) ex2_scripts 0 (ex2_w 1) in
+  fst r = ORet /\ counts (wlog (snd r)) = (1, 1) /\ remaining (snd r) = [] /\ In [97; 98; 99; 100; 101] (events (snd r)).
+Proof. vm_compute. repeat split; try reflexivity. right. right. left. reflexivity. Qed.
+
+(* ... and by the theorem, for every normalisation function and every max_conns *)
+Example ex2_never_deadlocks norm maxc :
+  fst (run_loop norm maxc (nb (ex2_w 1) + 4) (new_parser 64) ex2_scripts 0 (ex2_w 1)) = ORet.
+Proof.
+  destruct ex2_hyps as (H1 & H2 & H3 & H4 & H5 & H6 & H7 & H8 & H9 & H10).
+  exact (peer_never_deadlocks norm maxc ex2_scripts 64 (ex2_sg 1) (ex2_w 1) H1 H2 H3 H4 H5 H6 H7 H8 H9 H10).
+Qed.
+
+(* the hypothesis on the gates matters: a client that asks for two management replies when it is owed one is waited
+   for in vain, with its second segment undelivered *)
+Example ex2_greedy_deadlocks :
+  let r := run_loop (fun b => b) 10 (nb (ex2_w 2) + 4) (new_parser 64) ex2_scripts 0 (ex2_w 2) in
+  fst r = ODeadlock /\ counts (wlog (snd r)) = (0, 1) /\ remaining (snd r) = enc_rcds ex2_rs2 /\ ~ peer_segs 0 (ex2_sg 2).
+Proof.
+  cbv zeta. split; [vm_compute; reflexivity|]. split; [vm_compute; reflexivity|]. split; [vm_compute; reflexivity|].
+  cbn [peer_segs ex2_sg]. intros (_ & _ & _ & _ & H & _). vm_compute in H. apply H. reflexivity.
+Qed.
+
+Print Assumptions ex2_hyps.
+Print Assumptions ex2_returns.
+Print Assumptions ex2_never_deadlocks.
+Print Assumptions ex2_greedy_deadlocks.
